@@ -41,11 +41,16 @@ type c12TTestCase struct {
 func c12GenTTest(t *rapid.T) c12TTestCase {
 	var c c12TTestCase
 	c.Test = rapid.SampledFrom([]string{"welch", "welch", "pooled", "paired", "one"}).Draw(t, "test")
-	n1 := c12GenN(t, "s1", 0, 300)
+	// sizes below the tests' minimum only in one case of eight
+	minN := 2
+	if rapid.IntRange(0, 7).Draw(t, "undersized") == 0 {
+		minN = 0
+	}
+	n1 := c12GenN(t, "s1", minN, 300)
 	c.X1, c.K1 = c12GenSample(t, "s1", n1, 60)
 	switch c.Test {
 	case "welch", "pooled":
-		n2 := c12GenN(t, "s2", 0, 300)
+		n2 := c12GenN(t, "s2", minN, 300)
 		switch rapid.IntRange(0, 5).Draw(t, "s2_rel") {
 		case 0: // independent second sample
 			c.X2, c.K2 = c12GenSample(t, "s2", n2, 60)
@@ -72,7 +77,7 @@ func c12GenTTest(t *rapid.T) c12TTestCase {
 	case "paired":
 		switch rapid.IntRange(0, 9).Draw(t, "pair_rel") {
 		case 0: // mismatched lengths
-			n2 := c12GenN(t, "s2", 0, 300)
+			n2 := c12GenN(t, "s2", minN, 300)
 			c.X2, c.K2 = c12GenSample(t, "s2", n2, 60)
 		case 1: // identical
 			c.X2, c.K2 = append([]float64(nil), c.X1...), "copy"
